@@ -641,7 +641,7 @@ func (p *Prog) errWrapper(fn *types.Func) bool {
 				if o == prm {
 					return true
 				}
-				if v, ok := o.(*types.Var); ok && depth < 2 && !v.IsField() && posIn(d.Decl.Body, v.Pos()) {
+				if v, ok := o.(*types.Var); ok && depth < 2 && !v.IsField() && localIn(d.Decl.Body, v) {
 					if def, n := localDef(info, d.Decl.Body, v); n == 1 && def != nil {
 						return surely(def, depth+1)
 					}
